@@ -977,6 +977,10 @@ class Model:
         return NotImplemented
 
     def contains(self, it, container, item, node):
+        if isinstance(container, DictH):
+            if not (is_z3(item) and item.sort() == self.alg.Sim):
+                raise Unsupported("membership of a non-simulator in a connection table")
+            return {"TA": self.TAd, "ID": self.IDd, "SU": self.SUd, "SW": self.SWd}[container.kind](container.owner, item)
         if isinstance(container, DataEnt):
             return self.has_attr(container.term, container.eid, item)
         if isinstance(container, HeapH):
